@@ -80,3 +80,20 @@ def last_n_selection(repo):
                 'last_n_blocks: usize, peer_state: &PeerState, original_request: &ProveRequest) -> Status {\n')
     p.suffix = '\n        unsafe { OUT = Some((reorg_last_headers, last_headers)); }\n        Status::ok()\n    }\n}'
     return [p, src.item(r'^pub\(crate\) fn check_continuous_headers')]
+
+
+def shared(mod_name, ids, prefix, why):
+    """Obligations of ANOTHER property module that also decide a clause of this property (same harness, same bounds): they are re-run under
+    this property's id with the obligation id prefixed, so that a change which breaks this property through that code is reported by THIS check."""
+    import importlib
+    mod = importlib.import_module(mod_name)
+    out = []
+    for o in mod.obligations():
+        if o.ob_id in ids:
+            o.ob_id = prefix + '.' + o.ob_id[1:]
+            o.desc = '[%s] %s' % (why, o.desc)
+            out.append(o)
+    missing = set(ids) - set(x.ob_id[len(prefix) + 1:] and ('O' + x.ob_id[len(prefix) + 1:]) for x in out)
+    if missing:
+        raise RuntimeError('shared(): obligations %s not found in %s' % (sorted(missing), mod_name))
+    return out
